@@ -264,7 +264,7 @@ func descFiles(fs []kv) string {
 }
 
 func main() {
-	mode := flag.String("mode", "dir", "dir|line|ops")
+	mode := flag.String("mode", "dir", "dir|line|ops|cliops")
 	tier := flag.String("tier", "quick", "quick|thorough")
 	outDir := flag.String("out", "", "output directory")
 	flag.Parse()
@@ -286,6 +286,8 @@ func main() {
 		genLine(w, *tier)
 	case "ops":
 		genOps(w, *tier)
+	case "cliops":
+		genCli(w, *tier)
 	default:
 		fmt.Fprintln(os.Stderr, "unknown mode")
 		os.Exit(2)
